@@ -16,7 +16,7 @@ pub fn run(tier: Tier, seed: u64) {
     ]);
     eng::bound("library level: N in {1,2,3,5} (+8,13 thorough), G1 and G2; zkAbacus level: every atom of EstablishProof / PayProof enumerated from the wire form of the current tree; merchant key atoms; range-parameter atoms (quick: 3 signatures + key, thorough: all 128); context strings differing in one byte at positions {0,1,31,last}");
     eng::assumption("ideal hash: two transcripts have equal digests iff their byte images are equal");
-    eng::assumption("two 32-byte channel ids that are congruent mod q are the same public value for the proof system (ChannelId::to_scalar reduces mod q); binding is posed on the scalar");
+    eng::assumption("two 32-byte channel ids that are congruent mod q are the same public value for the proof system (ChannelId::to_scalar reduces mod q): binding of the channel id is posed on byte strings below q");
     builder_vs_proof(tier, seed);
     crate::for_each_n!(tier, library_types, seed);
     fixed_types(seed, tier);
@@ -308,10 +308,9 @@ pub fn establish_level(seed: u64, tier: Tier) {
         };
         let d0 = init("s0", &w.merchant, &cid_a, 10, 1000, &ctx, &mut rng);
         let d1 = init("s1", &w.merchant, &cid_b, 10, 1000, &ctx, &mut rng);
-        let sa = Scalar::from_term(sx::var_node(ba));
-        let sb = Scalar::from_term(sx::var_node(bb));
-        let (r, m) = eng::satisfiable("C12 establish statement: channel id bound", "REFUTE", &eng::axioms(), &F::and(vec![F::BlobEq(d0, d1), ne(sa, sb)]));
-        report_unbound("EstablishProof-statement", "channel_id", r, m);
+        if let Some(m) = blob_binding("C12 establish statement: channel id (all 32 bytes) bound by the merchant's challenge", &eng::axioms(), &F::BlobEq(d0, d1), ba, bb) {
+            report_unbound("EstablishProof-statement", "channel_id", Tri::Yes, Some(m));
+        }
         for (k, (c2, m2)) in [(11u64, 1000u64), (9, 1000), (10, 1001), (10, 999), (1000, 10)].iter().enumerate() {
             let d = init(&format!("bal{}", k), &w.merchant, &cid_a, *c2, *m2, &ctx, &mut rng);
             let (r, m) = eng::satisfiable(&format!("C12 establish statement: balances (10,1000) vs ({},{}) give different challenges", c2, m2), "REFUTE", &eng::axioms(), &F::BlobEq(d0, d));
